@@ -90,6 +90,7 @@ def nGroupArgs (op : String) : Nat :=
 @[specialize] def run (op : String) (x : Array α) : Option (Except String (Array α)) :=
   if op.startsWith "conv_p1_" then some (pair1 (op.drop 8).toString x)
   else if op.startsWith "conv_p2_" then some (pair2 (op.drop 8).toString x)
+  else if op.startsWith "conv_copy_" then some (.ok x)   -- value / Map / Map<const> construction and assignment: verbatim
   else match op with
   | "conv_so2_ctor" => some (do need x 2; return toArray (Conv.so2OfCoeffs (sc x 0) (sc x 1)))
   | "conv_so2_angle_ctor" => some (do need x 1; return toArray (Conv.so2OfAngle (sc x 0)))
@@ -149,6 +150,20 @@ def nGroupArgs (op : String) : Nat :=
   | "conv_se2_iso_rt" =>
     some (do need x 4; return toArray (Conv.se2_ofIsometry (memoM (Conv.se2_isometry (ofArray 4 x)))))
   | "conv_se3_isometry" => some (do need x 7; return matToArray (Conv.se3_isometry (ofArray 7 x)))
+  -- constructors from parts / between storage types (API-coverage unit): coefficient moves, no arithmetic
+  | "conv_se2_parts_ctor" | "conv_se2_parts_ctor_map" =>
+    some (do need x 4; return #[sc x 2, sc x 3, sc x 0, sc x 1])
+  | "conv_se3_parts_ctor" | "conv_se3_parts_ctor_map" =>
+    some (do need x 7; return x.extract 4 7 ++ x.extract 0 4)
+  | "conv_gal_parts_ctor" => some (do need x 11; return x.extract 4 11 ++ x.extract 0 4)
+  | "conv_gal_parts_ctor_dflt" => some (do need x 10; return (x.extract 4 10).push (nat 0) ++ x.extract 0 4)
+  | "conv_sek2_parts_ctor" => some (do need x 10; return x.extract 4 10 ++ x.extract 0 4)
+  | "conv_bundle_parts_ctor" => some (do need x 13; return x)
+  | "conv_so3_quat_write" => some (do need x 4; return #[sc x 1, sc x 2, sc x 3, sc x 0])
+  | "conv_of_euler_xyz" =>
+    some (do
+      need x 3
+      return toArray (SO3.composition (memoV (SO3.composition (SO3.rot_x (sc x 0)) (SO3.rot_y (sc x 1)))) (SO3.rot_z (sc x 2))))
   | "conv_se3_iso_glue" =>
     some (do need x 20; return toArray (Conv.se3_ofIsometryGlue (matOfArray 4 4 x) (ofArray 4 x 16)))
   | _ => none
